@@ -24,6 +24,7 @@ RULES = {
     'R4': 'co-location of tip label updates and apply_block; initial values',
     'R5': 'EXPR of the depth helper',
     'R6': 'the page token of a filtered response names the cut tip B (= C06.R1)',
+    'R7': 'the public request reaches the walk unchanged: address, min_confirmations and both spellings of each filter variant are carried into the internal request',
 }
 ASSUMPTIONS = ['depths and confirmation counts fit i32 (no wrap in `as i32`)']
 
@@ -160,3 +161,13 @@ def _run(ctx):
                 okb = True
                 ctx.touch(k)
         ctx.check(okb, 'R1', 'balance:bound-check', fb, 'get_balance refuses c > chain.len() with the same error and payload', 'get_balance bound check not found / different')
+
+
+# plumbing between the interface and the analysed functions (rules/plumbing.py)
+_run_before_plumbing = run
+
+
+def run(ctx):
+    _run_before_plumbing(ctx)
+    from rules import plumbing
+    plumbing.request_conversions(ctx, 'R7')
